@@ -241,4 +241,3 @@ func r01_3(c *Ctx, r *Report) {
 	r.rule(rule, "The term table is anchored on the civil year. At every call compute(lunar, y), y is NewLunarYear(k) with k provably equal to the year of the Solar stored in lunar.solar: the same pure-getter expression, or equal under the dominating branch fact (noon.GetYear() == lunarYear on the fall-through edge of NewLunar). Dropping the re-anchoring makes the two construction routes disagree for lunar months 11/12 that fall in the next civil year.")
 	anchoredOnCivilYear(c, r, rule)
 }
-
